@@ -261,7 +261,10 @@ class Check:
         for k, pr in enumerate(paths):
             tag = name if len(paths) == 1 else f"{name}.path{k}"
             if pr.exc is not None:
-                self.fail(f"{tag}.no_exception", f"{type(pr.exc).__name__}: {pr.exc}", fn=fn, goal=goal, replay=replay)
+                if isinstance(pr.exc, T.Unsupported):      # a limit of the engine, not a behaviour of the code: undecided, never a violation
+                    self.error(f"{tag}.no_exception", f"unsupported construct on this path: {pr.exc}")
+                else:
+                    self.fail(f"{tag}.no_exception", f"{type(pr.exc).__name__}: {pr.exc}", fn=fn, goal=goal, replay=replay)
                 continue
             out.append((tag, pr.pc, pr.value))
         self.extra["paths_explored"] = self.extra.get("paths_explored", 0) + len(paths)
@@ -291,7 +294,10 @@ class Check:
         names = sorted(o["name"] for o in self.obls)
         ledger_msg = None
         if ledger is not None:
-            missing = sorted(set(ledger) - set(names))
+            import re as _re
+            # an obligation generated once per path of a function that gained a branch ("name.path<k>.rest") covers the ledger entry "name.rest"
+            covered = set(names) | {_re.sub(r"\.path\d+(?=\.|\[|$)", "", n) for n in names}
+            missing = sorted(set(ledger) - covered)
             if missing:
                 ledger_msg = f"{len(missing)} obligations of the ledger were not generated, e.g. {missing[:3]}"
         n_obl = len(self.obls)
